@@ -1188,16 +1188,42 @@ func (r *treeRun[T]) apply(op Op) string {
 		}
 		leaf := r.key(leafX)
 		onPath := map[int64]bool{}
+		var pathKeys []int64
 		for c, d := in.t.Root(), 0; c.Valid(); d++ {
 			walkGuard(d, in.t.Len())
 			k := r.key(c.Key()).K
 			onPath[k] = true
+			pathKeys = append(pathKeys, k)
 			if leaf.K < k {
 				c.Left()
 			} else if leaf.K > k {
 				c.Right()
 			} else {
 				break
+			}
+		}
+		if op.A/4%3 == 2 && len(pathKeys) >= 5 {
+			// also keep the whole subtree of the path node a few levels above the
+			// leaf's parent's parent: a deep interior key with a sizeable subtree
+			// survives (the keys of a subtree are the contiguous range between the
+			// nearest smaller and larger path keys above it)
+			top := pathKeys[len(pathKeys)-1-min(3+op.A/12%3, len(pathKeys)-2)]
+			lo, hi := int64(math.MinInt64), int64(math.MaxInt64)
+			for _, k := range pathKeys {
+				if k == top {
+					break
+				}
+				if k < top && k > lo {
+					lo = k
+				}
+				if k > top && k < hi {
+					hi = k
+				}
+			}
+			for _, k := range in.m.ks {
+				if k.K > lo && k.K < hi {
+					onPath[k.K] = true
+				}
 			}
 		}
 		ks := append([]Key(nil), in.m.ks...)
@@ -1218,6 +1244,18 @@ func (r *treeRun[T]) apply(op Op) string {
 			r.drained++
 		}
 		r.pruned++
+		// the surviving keys sit as deep as the peak size allowed: Add / Replace
+		// of such a PRESENT key must leave the shape within the bound too
+		j := 0
+		for _, k := range ks {
+			if onPath[k.K] {
+				r.sub = len(ks) + j
+				if msg := r.doAdd(in, k.K, j%2 == 1); msg != "" {
+					return msg
+				}
+				j++
+			}
+		}
 		return ""
 	case "bulkremove":
 		// remove every (A+2)-th key: scattered removals
